@@ -13,14 +13,15 @@
 //     counts), the comparison `usedCount >= replicas`, the allocate-during-filter condition `(reserve ||
 //     isPoolSizeDefined)`, the two branches of allocateDuringFilter, getDpReplicas answering (pool.Size, true).
 //
-// Purely syntactic (go/ast on single functions, no type checking); it fails loudly when a function or a shape it
-// relies on is gone.
+// No type checking (go/ast); every fact is read off the normalised view of norm.go (canonical expressions, path
+// conditions, events in execution order, helpers followed), so behaviour-preserving rewrites leave the output
+// unchanged; it fails loudly when a function or an event it relies on is gone.
 package main
 
 import (
 	"fmt"
 	"go/ast"
-	"go/token"
+	"path/filepath"
 	"strconv"
 	"strings"
 
@@ -34,93 +35,544 @@ const (
 	srvGo   = "pkg/ipam/server/server.go"
 )
 
-// stmtsOf flattens a function body into its top-level statements.
-func idxOf(p *fg.Parsed, body *ast.BlockStmt, pred func(ast.Stmt) bool) int {
-	for i, s := range body.List {
-		if pred(s) {
-			return i
-		}
-	}
-	return -1
+// ---------------------------------------------------------------------------------------------------- util: keys
+
+// keyFns translates KeyObj.PoolPrefix and the parameter -> field mapping of NewKeyObj.
+type keyFns struct {
+	poolPrefixThen, poolPrefixElse string   // Lean string expressions of the two branches of PoolPrefix()
+	fieldOfArg                     []string // i-th parameter of NewKeyObj -> KeyObj field
+	consts                         map[string]string
 }
 
-// deferredLock finds `defer <recv>.<fn>(ARG)()` anywhere inside stmt (not inside a nested function literal) and
-// returns ARG.
-func deferredLock(p *fg.Parsed, s ast.Node, fn string) ast.Expr {
-	var arg ast.Expr
-	ast.Inspect(s, func(n ast.Node) bool {
-		if _, ok := n.(*ast.FuncLit); ok {
-			return false
+var fieldParam = map[string]string{"recv.PoolName": "poolName", "recv.AppTypePrefix": "appTypePrefix", "recv.Namespace": "ns",
+	"recv.AppName": "appName", "recv.PodName": "podName"}
+
+// leanConcat translates a string-valued expression (concatenation / Sprintf of literals, constants and leaves) into Lean.
+func leanConcat(c *fctx, e ast.Expr, leaf func(canon string) (string, bool)) (string, error) {
+	var parts []string
+	if !c.concat(e, &parts) {
+		return "", fmt.Errorf("cannot flatten %s", c.p.Src(e))
+	}
+	var out []string
+	lit := ""
+	flush := func() {
+		if lit != "" {
+			out = append(out, fg.LeanStr(lit))
+			lit = ""
 		}
-		d, ok := n.(*ast.DeferStmt)
+	}
+	for _, p := range parts {
+		if strings.HasPrefix(p, `"`) || strings.HasPrefix(p, "`") {
+			v, err := strconv.Unquote(p)
+			if err != nil {
+				return "", err
+			}
+			lit += v
+			continue
+		}
+		flush()
+		l, ok := leaf(p)
 		if !ok {
+			return "", fmt.Errorf("cannot translate %s in %s", p, c.p.Src(e))
+		}
+		out = append(out, l)
+	}
+	flush()
+	if len(out) == 0 {
+		return `""`, nil
+	}
+	return strings.Join(out, " ++ "), nil
+}
+
+func analyseKeys(pkg *pkgIndex, consts map[string]string) (*keyFns, error) {
+	k := &keyFns{consts: consts}
+	c, err := pkg.ctx("KeyObj", "PoolPrefix")
+	if err != nil {
+		return nil, err
+	}
+	leaf := func(s string) (string, bool) {
+		if v, ok := consts[s]; ok {
+			return fg.LeanStr(v), true
+		}
+		v, ok := fieldParam[s]
+		return v, ok
+	}
+	hasPool := fnot(fa(eqAtom(`""`, "recv.PoolName")))
+	for _, ev := range c.events() {
+		if ev.kind != "return" || ev.depth != 0 {
+			continue
+		}
+		r := ev.node.(*ast.ReturnStmt)
+		if len(r.Results) != 1 {
+			return nil, fmt.Errorf("%s: KeyObj.PoolPrefix: unknown return", utilsGo)
+		}
+		l, err := leanConcat(c, r.Results[0], leaf)
+		if err != nil {
+			return nil, fmt.Errorf("%s: PoolPrefix: %v", utilsGo, err)
+		}
+		switch {
+		case equiv(ev.pc, hasPool) && k.poolPrefixThen == "":
+			k.poolPrefixThen = l
+		case equiv(ev.pc, fnot(hasPool)) && k.poolPrefixElse == "":
+			k.poolPrefixElse = l
+		default:
+			return nil, fmt.Errorf("%s: KeyObj.PoolPrefix: a return under the condition %s", utilsGo, ev.pc)
+		}
+	}
+	if k.poolPrefixThen == "" || k.poolPrefixElse == "" || len(c.bad) > 0 {
+		return nil, fmt.Errorf("%s: KeyObj.PoolPrefix no longer is `PoolName != \"\" ? a : b`", utilsGo)
+	}
+	n, err := pkg.ctx("", "NewKeyObj")
+	if err != nil {
+		return nil, err
+	}
+	nparams := 0
+	for _, f := range n.fn.Type.Params.List {
+		nparams += len(f.Names)
+	}
+	k.fieldOfArg = make([]string, nparams)
+	found := 0
+	ast.Inspect(n.fn.Body, func(m ast.Node) bool {
+		cl, ok := m.(*ast.CompositeLit)
+		if !ok || n.p.Src(cl.Type) != "KeyObj" {
 			return true
 		}
-		// d.Call = (<recv>.<fn>(ARG))()
-		inner, ok := d.Call.Fun.(*ast.CallExpr)
-		if !ok || len(d.Call.Args) != 0 || len(inner.Args) != 1 {
-			return true
-		}
-		if strings.HasSuffix(p.Src(inner.Fun), "."+fn) {
-			arg = inner.Args[0]
+		for _, el := range cl.Elts {
+			kv, ok := el.(*ast.KeyValueExpr)
+			if !ok {
+				continue
+			}
+			v := n.canon(kv.Value)
+			if strings.HasPrefix(v, "arg") {
+				if i, err := strconv.Atoi(v[3:]); err == nil && i < nparams && k.fieldOfArg[i] == "" {
+					k.fieldOfArg[i] = n.p.Src(kv.Key)
+					found++
+				}
+			}
 		}
 		return true
 	})
-	return arg
+	if nparams != 5 || found != 5 {
+		return nil, fmt.Errorf("%s: NewKeyObj no longer maps 5 parameters to 5 fields (%v)", utilsGo, k.fieldOfArg)
+	}
+	return k, nil
 }
 
-// sprintfLean translates fmt.Sprintf("<only %s verbs and literal text>", args...) into a Lean string expression;
-// tr translates each argument.
-func sprintfLean(p *fg.Parsed, e ast.Expr, tr func(ast.Expr) (string, error)) (string, error) {
-	c, ok := e.(*ast.CallExpr)
-	if !ok || p.Src(c.Fun) != "fmt.Sprintf" || len(c.Args) < 1 {
-		return "", fmt.Errorf("not a fmt.Sprintf call: %s", p.Src(e))
+// ---------------------------------------------------------------------------------------------------- plugin side
+
+type filterFacts struct {
+	lockArg, keyObj, lockKind                                  string
+	locksBeforeCount, lockForDeployments, holdsAcrossAlloc     bool
+	sizeBeforeLock, keyIsPodKey, countsLockedPrefix            bool
+	allocCondOK, adfShape, countsAll, sizeFromPool, keyedMutex bool
+	allocCondText, ruleText, cmpText, cmpOp                    string
+}
+
+func idxOfEv(evs []event, pred func(e *event) bool) []int {
+	var out []int
+	for i := range evs {
+		if pred(&evs[i]) {
+			out = append(out, i)
+		}
 	}
-	bl, ok := c.Args[0].(*ast.BasicLit)
-	if !ok || bl.Kind != token.STRING {
-		return "", fmt.Errorf("format of %s is not a literal", p.Src(e))
-	}
-	format, err := strconv.Unquote(bl.Value)
+	return out
+}
+
+func analyseFilter(pkg *pkgIndex) (*filterFacts, error) {
+	ff := &filterFacts{}
+	c, err := pkg.ctx("FloatingIPPlugin", "getSubnet")
 	if err != nil {
-		return "", err
+		return nil, err
 	}
-	var parts []string
-	args := c.Args[1:]
-	lit := ""
-	for i := 0; i < len(format); i++ {
-		if format[i] != '%' {
-			lit += string(format[i])
+	evs := c.events()
+	if len(c.bad) > 0 {
+		return nil, fmt.Errorf("filter.go: getSubnet: %v", c.bad)
+	}
+	named := func(kind string, names ...string) []int {
+		return idxOfEv(evs, func(e *event) bool {
+			if e.kind != kind {
+				return false
+			}
+			for _, n := range names {
+				if e.name == n {
+					return true
+				}
+			}
+			return false
+		})
+	}
+	// the lock: a deferred `recv.LockDpPool(A)()` of getSubnet itself (a lock deferred in a helper is released there)
+	iL := -1
+	for _, i := range named("defer", "recv.LockDpPool") {
+		if evs[i].depth == 0 && len(evs[i].args) == 1 {
+			iL = i
+			break
+		}
+	}
+	counts := named("call", "recv.ipam.ByPrefix")
+	allocs := idxOfEv(evs, func(e *event) bool {
+		return e.kind == "call" && (e.name == "recv.allocateInSubnetWithKey" || e.name == "recv.allocateInSubnet" ||
+			strings.HasPrefix(e.name, "recv.ipam.Allocate"))
+	})
+	sizes := named("call", "recv.getDpReplicas")
+	if len(sizes) == 0 {
+		sizes = idxOfEv(evs, func(e *event) bool { return e.kind == "call" && strings.Contains(e.name, "PoolLister") })
+	}
+	if len(counts) == 0 || len(allocs) == 0 || len(sizes) == 0 {
+		return nil, fmt.Errorf("filter.go: getSubnet no longer reaches getDpReplicas / ipam.ByPrefix / an allocation call")
+	}
+	pcL := fT
+	if iL >= 0 {
+		L := evs[iL]
+		ff.lockArg = L.args[0]
+		pcL = noErr(L.pc)
+		guard := relTo(L.pc, L.top)
+		switch {
+		case strings.HasSuffix(ff.lockArg, ".PoolPrefix()"):
+			ff.lockKind, ff.keyObj = "PoolPrefix", strings.TrimSuffix(ff.lockArg, ".PoolPrefix()")
+		case strings.HasSuffix(ff.lockArg, ".PoolName"):
+			ff.lockKind, ff.keyObj = "PoolName", strings.TrimSuffix(ff.lockArg, ".PoolName")
+		case strings.HasSuffix(ff.lockArg, ".KeyInDB"):
+			ff.lockKind, ff.keyObj = "KeyInDB", strings.TrimSuffix(ff.lockArg, ".KeyInDB")
+		default:
+			return nil, fmt.Errorf("filter.go: getSubnet locks %q - an expression this translator cannot turn into a function", ff.lockArg)
+		}
+		ff.lockForDeployments = equiv(guard, fT) || equiv(guard, fa(ff.keyObj+".Deployment()"))
+	} else {
+		ff.lockKind = "none"
+		// the key object: first argument of the count's prefix
+		if a := evs[counts[0]].args; len(a) == 1 && strings.HasSuffix(a[0], ".PoolPrefix()") {
+			ff.keyObj = strings.TrimSuffix(a[0], ".PoolPrefix()")
+		}
+	}
+	after := func(is []int) bool {
+		for _, i := range is {
+			if i < iL {
+				return false
+			}
+		}
+		return iL >= 0
+	}
+	ff.locksBeforeCount = after(counts) && ff.lockForDeployments
+	for _, i := range counts {
+		// the count happens only where the lock was taken
+		if !implies(noErr(evs[i].pc), pcL) {
+			ff.locksBeforeCount = false
+		}
+	}
+	ff.holdsAcrossAlloc = after(allocs)
+	ff.sizeBeforeLock = true
+	for _, i := range sizes {
+		if iL >= 0 && i > iL {
+			ff.sizeBeforeLock = false
+		}
+	}
+	ff.keyIsPodKey = ff.keyObj == "util.FormatKey(arg0)#0"
+	ff.countsLockedPrefix = ff.lockKind == "PoolPrefix"
+	for _, i := range counts {
+		if len(evs[i].args) != 1 || evs[i].args[0] != ff.lockArg {
+			ff.countsLockedPrefix = false
+		}
+	}
+	K := ff.keyObj
+	// the size flag: second result of getDpReplicas
+	S := ""
+	if e := evs[sizes[0]]; e.name == "recv.getDpReplicas" {
+		S = e.name + "(" + strings.Join(e.args, ", ") + ")#1"
+	}
+	repl := strings.TrimSuffix(S, "#1") + "#0"
+	// ---- allocation during filter
+	var pc1, pc2 *F = fF, fF
+	d1ok, d2ok := false, false
+	ref := evs[counts[0]].pc // everything decided before the count is not part of the allocation condition
+	if iL >= 0 {
+		ref = evs[iL].pc
+	}
+	for _, i := range allocs {
+		e := evs[i]
+		switch e.name {
+		case "recv.allocateInSubnetWithKey":
+			pc1 = forr(pc1, relTo(e.pc, ref))
+			d1ok = len(e.args) >= 2 && e.args[0] == K+".PoolPrefix()" && e.args[1] == K+".KeyInDB"
+		case "recv.allocateInSubnet":
+			pc2 = forr(pc2, relTo(e.pc, ref))
+			d2ok = len(e.args) >= 1 && e.args[0] == K+".KeyInDB"
+		}
+	}
+	R := ""
+	if is := named("call", "recv.getAvailableSubnet"); len(is) > 0 {
+		R = evs[is[0]].name + "(" + strings.Join(evs[is[0]].args, ", ") + ")#1"
+	}
+	G := ""
+	set := map[string]bool{}
+	forr(pc1, pc2).atoms(set)
+	for a := range set {
+		if strings.HasSuffix(a, ".Len() > 0") {
+			G = a
+		}
+		if R == "" && a != S && !strings.HasSuffix(a, ".Len() > 0") {
+			R = a
+		}
+	}
+	ff.allocCondText = forr(pc1, pc2).String()
+	if R != "" && S != "" && G != "" {
+		r, s, g := fa(R), fa(S), fa(G)
+		ff.allocCondOK = equiv(forr(pc1, pc2), fand(forr(r, s), g))
+		ff.adfShape = d1ok && d2ok && equiv(pc1, fand(r, g)) && equiv(pc2, fand(fnot(r), s, g))
+		if ff.allocCondOK {
+			ff.allocCondText = "(reserve || isPoolSizeDefined) && subnetSet.Len() > 0"
+		}
+	}
+	// ---- the counting rule: the loop over the counted records
+	cnt := evs[counts[0]]
+	ipsSym := cnt.name + "(" + strings.Join(cnt.args, ", ") + ")#0"
+	var loop *event
+	for i := range evs {
+		if evs[i].kind == "range" && evs[i].name == ipsSym {
+			loop = &evs[i]
+			break
+		}
+	}
+	if loop == nil {
+		return nil, fmt.Errorf("ipam.go: getAvailableSubnet: ByPrefix call / loop over its result / usedCount comparison not found")
+	}
+	incs := loopIncs(loop.c, loop.node.(*ast.RangeStmt))
+	U := ""
+	reach := fF
+	for _, e := range incs {
+		if U == "" {
+			U = e.name
+		}
+		if e.name == U {
+			reach = forr(reach, e.pc)
+		}
+	}
+	if U == "" {
+		return nil, fmt.Errorf("ipam.go: getAvailableSubnet: no counter is incremented in the loop over the ByPrefix result")
+	}
+	elem := "elem(" + ipsSym + ")"
+	isPrefix := fa(eqAtom(elem+".Key", cnt.args[0]))
+	noPool := fa(eqAtom(`""`, K+".PoolName"))
+	own := fa("strings.HasPrefix(" + elem + ".Key, " + K + ".PoolAppPrefix())")
+	ff.ruleText = reach.String()
+	if S != "" {
+		ff.countsAll = equiv(reach, fand(fnot(isPrefix), forr(fa(S), noPool, own)))
+		if ff.countsAll {
+			ff.ruleText = `key != prefix && (isPoolSizeDefined || PoolName == "" || HasPrefix(key, PoolAppPrefix))`
+		}
+	}
+	// ---- the comparison that refuses
+	for i := range evs {
+		e := evs[i]
+		if e.kind != "if" || e.c != loop.c {
 			continue
 		}
-		if i+1 >= len(format) || format[i+1] != 's' {
-			return "", fmt.Errorf("format %q: only %%s is understood", format)
+		is := e.node.(*ast.IfStmt)
+		f := e.c.cond(is.Cond)
+		set := map[string]bool{}
+		f.atoms(set)
+		mentions := false
+		for a := range set {
+			if strings.HasPrefix(a, U+" > ") || strings.HasSuffix(a, " > "+U) {
+				mentions = true
+			}
 		}
-		i++
-		if lit != "" {
-			parts = append(parts, fg.LeanStr(lit))
-			lit = ""
+		if !mentions {
+			continue
 		}
-		if len(args) == 0 {
-			return "", fmt.Errorf("format %q: too few arguments", format)
+		ff.cmpText = e.c.p.Src(is.Cond)
+		switch {
+		case !refuses(e.c, is.Body):
+			ff.cmpOp = "no-refusal"
+		case equiv(f, fnot(fa(repl+" > "+U))):
+			ff.cmpOp, ff.cmpText = ">=", "usedCount >= replicas"
+		case equiv(f, fa(U+" > "+repl)):
+			ff.cmpOp = ">"
+		default:
+			ff.cmpOp = "other"
 		}
-		a, err := tr(args[0])
-		if err != nil {
-			return "", err
+		break
+	}
+	if ff.cmpOp == "" {
+		return nil, fmt.Errorf("ipam.go: getAvailableSubnet: ByPrefix call / loop over its result / usedCount comparison not found")
+	}
+	// ---- getDpReplicas: a Pool object in the lister answers (pool.Size, true, nil)
+	g, err := pkg.ctx("FloatingIPPlugin", "getDpReplicas")
+	if err != nil {
+		return nil, err
+	}
+	gev := g.events()
+	getCall := `recv.PoolLister.Pools("kube-system").Get(arg0.PoolName)`
+	hasPool := fnot(fa(eqAtom(`""`, "arg0.PoolName")))
+	for _, e := range gev {
+		if e.kind == "return" && len(e.args) == 3 && e.args[0] == getCall+"#0.Size" && e.args[1] == "true" && e.args[2] == "nil" &&
+			implies(e.pc, fand(hasPool, fa(eqAtom(getCall+"#1", "nil")))) {
+			ff.sizeFromPool = true
 		}
-		args = args[1:]
-		parts = append(parts, a)
 	}
-	if lit != "" {
-		parts = append(parts, fg.LeanStr(lit))
+	// ---- LockDpPool(x): keyed mutex on x, returns its unlock
+	l, err := pkg.ctx("FloatingIPPlugin", "LockDpPool")
+	if err != nil {
+		return nil, err
 	}
-	if len(args) != 0 {
-		return "", fmt.Errorf("format %q: too many arguments", format)
-	}
-	if len(parts) == 0 {
-		return `""`, nil
-	}
-	return strings.Join(parts, " ++ "), nil
+	locks, unlocks, retFn := false, false, false
+	ast.Inspect(l.fn.Body, func(n ast.Node) bool {
+		switch x := n.(type) {
+		case *ast.CallExpr:
+			if len(x.Args) == 1 && l.canon(x.Args[0]) == "arg0" {
+				switch l.canon(x.Fun) {
+				case "recv.dpLockPool.LockKey":
+					locks = true
+				case "recv.dpLockPool.UnlockKey":
+					unlocks = true
+				}
+			}
+		case *ast.ReturnStmt:
+			if len(x.Results) == 1 {
+				if _, ok := l.resolve(x.Results[0]).(*ast.FuncLit); ok {
+					retFn = true
+				}
+			}
+		}
+		return true
+	})
+	ff.keyedMutex = locks && unlocks && retFn
+	return ff, nil
 }
+
+// ---------------------------------------------------------------------------------------------------- API side
+
+type preFacts struct {
+	lockArg                                    string
+	lockExpr                                   ast.Expr // resolved expression of the lock key
+	c                                          *fctx
+	locksBeforeCount, holdsAcrossLoop, sameKey bool
+}
+
+func analysePre(pkg *pkgIndex) (*preFacts, error) {
+	pf := &preFacts{}
+	c, err := pkg.ctx("PoolController", "preAllocateIP")
+	if err != nil {
+		return nil, err
+	}
+	pf.c = c
+	evs := c.events()
+	if len(c.bad) > 0 {
+		return nil, fmt.Errorf("%s: preAllocateIP: %v", poolGo, c.bad)
+	}
+	iL := -1
+	unconditional := false
+	for i, e := range evs {
+		if e.kind == "defer" && e.depth == 0 && e.name == "recv.LockPoolFunc" && len(e.args) == 1 {
+			iL = i
+			unconditional = equiv(relTo(e.pc, e.top), fT)
+			pf.lockArg = e.args[0]
+			pf.lockExpr = c.resolve(e.call.Args[0])
+			break
+		}
+	}
+	counts := idxOfEv(evs, func(e *event) bool { return e.kind == "call" && e.name == "recv.IPAM.ByPrefix" })
+	allocs := idxOfEv(evs, func(e *event) bool { return e.kind == "call" && e.name == "recv.IPAM.AllocateInSubnet" })
+	if len(counts) == 0 || len(allocs) == 0 {
+		return nil, fmt.Errorf("%s: preAllocateIP no longer has a ByPrefix count and an AllocateInSubnet loop", poolGo)
+	}
+	pf.locksBeforeCount, pf.holdsAcrossLoop, pf.sameKey = iL >= 0 && unconditional, iL >= 0 && unconditional, iL >= 0
+	for _, i := range counts {
+		if i < iL {
+			pf.locksBeforeCount = false
+		}
+		if len(evs[i].args) < 1 || evs[i].args[0] != pf.lockArg {
+			pf.sameKey = false
+		}
+	}
+	for _, i := range allocs {
+		if i < iL {
+			pf.holdsAcrossLoop = false
+		}
+		if len(evs[i].args) < 1 || evs[i].args[0] != pf.lockArg {
+			pf.sameKey = false
+		}
+	}
+	return pf, nil
+}
+
+// apiLockKeyLean: the string preAllocateIP locks as a Lean function of the pool name.
+func apiLockKeyLean(pf *preFacts, k *keyFns) (string, error) {
+	c := pf.c
+	poolName := "arg2.Name"
+	leaf := func(s string) (string, bool) {
+		switch s {
+		case poolName:
+			return "poolName", true
+		case "util.DeploymentPrefixKey":
+			return fg.LeanStr(k.consts["DeploymentPrefixKey"]), true
+		case "util.StatefulsetPrefixKey":
+			return fg.LeanStr(k.consts["StatefulsetPrefixKey"]), true
+		}
+		return "", false
+	}
+	if pf.lockExpr == nil {
+		return "\"<no-lock>\" ++ poolName", nil
+	}
+	if call, ok := pf.lockExpr.(*ast.CallExpr); ok && len(call.Args) == 0 {
+		if sel, ok := call.Fun.(*ast.SelectorExpr); ok && sel.Sel.Name == "PoolPrefix" {
+			ctor, ok := c.resolve(sel.X).(*ast.CallExpr)
+			if !ok || c.canon(ctor.Fun) != "util.NewKeyObj" || len(ctor.Args) != 5 {
+				return "", fmt.Errorf("%s: preAllocateIP: lock key %s is not util.NewKeyObj(5 args).PoolPrefix()", poolGo, pf.lockArg)
+			}
+			val := map[string]string{}
+			for i, a := range ctor.Args {
+				v, err := leanConcat(c, a, leaf)
+				if err != nil {
+					return "", fmt.Errorf("%s: preAllocateIP: %v", poolGo, err)
+				}
+				val[k.fieldOfArg[i]] = v
+			}
+			return fmt.Sprintf("poolPrefixFn (%s) (%s) (%s) (%s)", val["PoolName"], val["AppTypePrefix"], val["Namespace"],
+				val["AppName"]), nil
+		}
+	}
+	v, err := leanConcat(c, pf.lockExpr, leaf)
+	if err != nil {
+		return "", fmt.Errorf("%s: preAllocateIP locks %q - an expression this translator cannot turn into a function", poolGo, pf.lockArg)
+	}
+	return v, nil
+}
+
+// ---------------------------------------------------------------------------------------------------- server wiring
+
+func analyseServer(sv *fg.Parsed) (lock, ipam, lockText string, err error) {
+	for _, d := range sv.File.Decls {
+		fd, ok := d.(*ast.FuncDecl)
+		if !ok || fd.Body == nil {
+			continue
+		}
+		c := newCtx(&pkgIndex{funcs: map[string]*fnRef{}}, &fnRef{sv, fd}, nil, nil)
+		ast.Inspect(fd.Body, func(n ast.Node) bool {
+			cl, ok := n.(*ast.CompositeLit)
+			if !ok || sv.Src(cl.Type) != "api.PoolController" {
+				return true
+			}
+			for _, el := range cl.Elts {
+				if kv, ok := el.(*ast.KeyValueExpr); ok {
+					switch sv.Src(kv.Key) {
+					case "LockPoolFunc":
+						lock, lockText = c.canon(kv.Value), sv.Src(kv.Value)
+					case "IPAM":
+						ipam = c.canon(kv.Value)
+					}
+				}
+			}
+			return true
+		})
+	}
+	if lock == "" {
+		return "", "", "", fmt.Errorf("%s: api.PoolController literal with LockPoolFunc not found", srvGo)
+	}
+	return lock, ipam, lockText, nil
+}
+
+// ---------------------------------------------------------------------------------------------------- emission
 
 func gen(repo string) (map[string]string, error) {
 	var b strings.Builder
@@ -128,7 +580,6 @@ func gen(repo string) (map[string]string, error) {
 		plugDir+"filter.go", plugDir+"ipam.go", plugDir+"deployment.go", utilsGo, poolGo, srvGo))
 	b.WriteString("namespace Galaxy.Generated.C07\n\n")
 
-	// ------------------------------------------------------------------ util/utils.go: key functions
 	ut, err := fg.ParseFile(repo, utilsGo)
 	if err != nil {
 		return nil, err
@@ -141,460 +592,103 @@ func gen(repo string) (map[string]string, error) {
 		}
 		consts[c] = v
 	}
-	// field name -> Lean parameter of the generated function
-	fieldParam := map[string]string{"PoolName": "poolName", "AppTypePrefix": "appTypePrefix", "Namespace": "ns",
-		"AppName": "appName", "PodName": "podName"}
-	pp, err := ut.Fn("KeyObj", "PoolPrefix")
+	utilPkg, err := loadPkg(repo, plugDir+"util")
 	if err != nil {
 		return nil, err
 	}
-	recv := pp.Recv.List[0].Names[0].Name
-	trField := func(e ast.Expr) (string, error) {
-		switch x := e.(type) {
-		case *ast.Ident:
-			if v, ok := consts[x.Name]; ok {
-				return fg.LeanStr(v), nil
-			}
-		case *ast.SelectorExpr:
-			if id, ok := x.X.(*ast.Ident); ok && id.Name == recv {
-				if prm, ok := fieldParam[x.Sel.Name]; ok {
-					return prm, nil
-				}
-			}
-		}
-		return "", fmt.Errorf("%s: PoolPrefix: cannot translate %s", utilsGo, ut.Src(e))
-	}
-	// shape: if k.PoolName != "" { return Sprintf(..) } ; return Sprintf(..)
-	if len(pp.Body.List) != 2 {
-		return nil, fmt.Errorf("%s: KeyObj.PoolPrefix no longer has the shape `if pool != \"\" {return ..}; return ..`", utilsGo)
-	}
-	ifs, ok := pp.Body.List[0].(*ast.IfStmt)
-	ret2, ok2 := pp.Body.List[1].(*ast.ReturnStmt)
-	if !ok || !ok2 || ifs.Else != nil || ifs.Init != nil || ut.Src(ifs.Cond) != recv+`.PoolName != ""` ||
-		len(ifs.Body.List) != 1 || len(ret2.Results) != 1 {
-		return nil, fmt.Errorf("%s: KeyObj.PoolPrefix: unknown shape", utilsGo)
-	}
-	ret1, ok := ifs.Body.List[0].(*ast.ReturnStmt)
-	if !ok || len(ret1.Results) != 1 {
-		return nil, fmt.Errorf("%s: KeyObj.PoolPrefix: unknown shape of the pool branch", utilsGo)
-	}
-	e1, err := sprintfLean(ut, ret1.Results[0], trField)
+	keys, err := analyseKeys(utilPkg, consts)
 	if err != nil {
-		return nil, fmt.Errorf("%s: PoolPrefix: %v", utilsGo, err)
-	}
-	e2, err := sprintfLean(ut, ret2.Results[0], trField)
-	if err != nil {
-		return nil, fmt.Errorf("%s: PoolPrefix: %v", utilsGo, err)
+		return nil, err
 	}
 	b.WriteString("/-- `KeyObj.PoolPrefix()` as a function of the key object's fields (translated from its two fmt.Sprintf calls) -/\n")
-	fmt.Fprintf(&b, "def poolPrefixFn (poolName appTypePrefix ns appName : String) : String :=\n  if poolName ≠ \"\" then %s else %s\n\n", e1, e2)
+	fmt.Fprintf(&b, "def poolPrefixFn (poolName appTypePrefix ns appName : String) : String :=\n  if poolName ≠ \"\" then %s else %s\n\n",
+		keys.poolPrefixThen, keys.poolPrefixElse)
 
-	// NewKeyObj: parameter -> field mapping
-	nk, err := ut.Fn("", "NewKeyObj")
+	plug, err := loadPkg(repo, strings.TrimSuffix(plugDir, "/"))
 	if err != nil {
 		return nil, err
 	}
-	var params []string
-	for _, f := range nk.Type.Params.List {
-		for _, n := range f.Names {
-			params = append(params, n.Name)
-		}
-	}
-	fieldOfParam := map[string]string{} // constructor parameter -> KeyObj field
-	ast.Inspect(nk.Body, func(n ast.Node) bool {
-		cl, ok := n.(*ast.CompositeLit)
-		if !ok || ut.Src(cl.Type) != "KeyObj" {
-			return true
-		}
-		for _, el := range cl.Elts {
-			kv, ok := el.(*ast.KeyValueExpr)
-			if !ok {
-				continue
-			}
-			if id, ok := kv.Value.(*ast.Ident); ok {
-				fieldOfParam[id.Name] = ut.Src(kv.Key)
-			}
-		}
-		return true
-	})
-	if len(params) != 5 || len(fieldOfParam) != 5 {
-		return nil, fmt.Errorf("%s: NewKeyObj no longer maps 5 parameters to 5 fields (%v / %v)", utilsGo, params, fieldOfParam)
-	}
-
-	// ------------------------------------------------------------------ filter.go: getSubnet
-	fl, err := fg.ParseFile(repo, plugDir+"filter.go")
+	ff, err := analyseFilter(plug)
 	if err != nil {
 		return nil, err
 	}
-	gs, err := fl.Fn("FloatingIPPlugin", "getSubnet")
-	if err != nil {
-		return nil, err
-	}
-	iLock := idxOf(fl, gs.Body, func(s ast.Stmt) bool { return deferredLock(fl, s, "LockDpPool") != nil })
-	iCount := fl.StmtIndex(gs.Body, "p.getAvailableSubnet(")
-	iAlloc := fl.StmtIndex(gs.Body, "p.allocateDuringFilter(")
-	iSize := fl.StmtIndex(gs.Body, "p.getDpReplicas(")
-	if iCount < 0 || iAlloc < 0 || iSize < 0 {
-		return nil, fmt.Errorf("filter.go: getSubnet no longer calls getDpReplicas / getAvailableSubnet / allocateDuringFilter at top level")
-	}
-	filterKeyExpr := ""
-	lockGuard := ""
-	if iLock >= 0 {
-		filterKeyExpr = fl.Src(deferredLock(fl, gs.Body.List[iLock], "LockDpPool"))
-		if is, ok := gs.Body.List[iLock].(*ast.IfStmt); ok {
-			lockGuard = fl.Src(is.Cond)
-		}
-	}
-	// the deferred unlock runs when getSubnet returns: the lock is held across everything after it
-	filterLocksBeforeCount := iLock >= 0 && iLock < iCount
-	filterHoldsAcrossAlloc := iLock >= 0 && iLock < iAlloc
-	filterLockForDeployments := lockGuard == "keyObj.Deployment()" || (iLock >= 0 && lockGuard == "")
-	// keyObj is util.FormatKey(pod)
-	keyObjIsPodKey := fl.StmtIndex(gs.Body, "keyObj, err := util.FormatKey(pod)") == 0
-	fmt.Fprintf(&b, "/-- getSubnet: `defer p.LockDpPool(%s)()` is taken (for deployment pods) before getAvailableSubnet -/\n", filterKeyExpr)
-	fmt.Fprintf(&b, "def filterLocksBeforeCount : Bool := %s\n", fg.LeanBool(filterLocksBeforeCount && filterLockForDeployments))
+	b.WriteString("/-- getSubnet: `defer p.LockDpPool(keyObj.PoolPrefix())()` is taken (for deployment pods) before getAvailableSubnet -/\n")
+	fmt.Fprintf(&b, "def filterLocksBeforeCount : Bool := %s\n", fg.LeanBool(ff.locksBeforeCount))
 	b.WriteString("/-- ... and, the unlock being deferred to the return of getSubnet, still held in allocateDuringFilter -/\n")
-	fmt.Fprintf(&b, "def filterHoldsAcrossAlloc : Bool := %s\n", fg.LeanBool(filterHoldsAcrossAlloc))
+	fmt.Fprintf(&b, "def filterHoldsAcrossAlloc : Bool := %s\n", fg.LeanBool(ff.holdsAcrossAlloc))
 	b.WriteString("/-- the size is read (getDpReplicas, from the Pool lister) before the pool lock is taken -/\n")
-	fmt.Fprintf(&b, "def sizeReadBeforeLock : Bool := %s\n", fg.LeanBool(iLock < 0 || iSize <= iLock))
+	fmt.Fprintf(&b, "def sizeReadBeforeLock : Bool := %s\n", fg.LeanBool(ff.sizeBeforeLock))
 	b.WriteString("/-- the key object of getSubnet is util.FormatKey(pod) -/\n")
-	fmt.Fprintf(&b, "def filterKeyIsPodKey : Bool := %s\n", fg.LeanBool(keyObjIsPodKey))
-	// filter lock key as a function
-	switch filterKeyExpr {
-	case "keyObj.PoolPrefix()":
+	fmt.Fprintf(&b, "def filterKeyIsPodKey : Bool := %s\n", fg.LeanBool(ff.keyIsPodKey))
+	switch ff.lockKind {
+	case "PoolPrefix":
 		b.WriteString("/-- the string getSubnet locks: `keyObj.PoolPrefix()` of the pod's key object -/\n")
 		b.WriteString("def filterLockKey (poolName appTypePrefix ns appName : String) : String :=\n  poolPrefixFn poolName appTypePrefix ns appName\n")
-	case "keyObj.PoolName":
+	case "PoolName":
 		b.WriteString("def filterLockKey (poolName _appTypePrefix _ns _appName : String) : String := poolName\n")
-	case "keyObj.KeyInDB", "":
+	default:
 		// no lock / a per-pod string: every pod locks something else
 		b.WriteString("def filterLockKey (poolName appTypePrefix ns appName : String) : String :=\n  \"<no-common-lock>\" ++ poolName ++ appTypePrefix ++ ns ++ appName\n")
-	default:
-		return nil, fmt.Errorf("filter.go: getSubnet locks %q - an expression this translator cannot turn into a function", filterKeyExpr)
-	}
-	// allocate-during-filter condition
-	var allocCond string
-	if is, ok := gs.Body.List[iAlloc].(*ast.IfStmt); ok {
-		allocCond = fl.Src(is.Cond)
 	}
 	b.WriteString("/-- condition under which getSubnet allocates during filter -/\n")
-	fmt.Fprintf(&b, "def allocCondText : String := %s\n", fg.LeanStr(allocCond))
-	fmt.Fprintf(&b, "def allocatesWhenReserveOrSized : Bool := %s\n",
-		fg.LeanBool(allocCond == "(reserve || isPoolSizeDefined) && subnetSet.Len() > 0"))
-	// the counted prefix is the locked string: getAvailableSubnet gets the same keyObj
-	countCall := ""
-	ast.Inspect(gs.Body.List[iCount], func(n ast.Node) bool {
-		if c, ok := n.(*ast.CallExpr); ok && fl.Src(c.Fun) == "p.getAvailableSubnet" && len(c.Args) > 0 {
-			countCall = fl.Src(c.Args[0])
-		}
-		return true
-	})
-	// allocateDuringFilter: reserve -> allocateInSubnetWithKey(PoolPrefix -> KeyInDB); else sized -> allocateInSubnet(KeyInDB)
-	adf, err := fl.Fn("FloatingIPPlugin", "allocateDuringFilter")
-	if err != nil {
-		return nil, err
-	}
-	adfOK := false
-	for _, s := range adf.Body.List {
-		is, ok := s.(*ast.IfStmt)
-		if !ok || fl.Src(is.Cond) != "reserve" {
-			continue
-		}
-		first := fl.Src(is.Body)
-		el, ok := is.Else.(*ast.IfStmt)
-		if !ok {
-			continue
-		}
-		adfOK = strings.Contains(first, "p.allocateInSubnetWithKey(keyObj.PoolPrefix(), keyObj.KeyInDB,") &&
-			fl.Src(el.Cond) == "isPoolSizeDefined" && el.Else == nil &&
-			strings.Contains(fl.Src(el.Body), "p.allocateInSubnet(keyObj.KeyInDB,")
-	}
+	fmt.Fprintf(&b, "def allocCondText : String := %s\n", fg.LeanStr(ff.allocCondText))
+	fmt.Fprintf(&b, "def allocatesWhenReserveOrSized : Bool := %s\n", fg.LeanBool(ff.allocCondOK))
 	b.WriteString("/-- allocateDuringFilter: reserve => re-key a record of PoolPrefix() to the pod's key; else sized => a free address under the pod's key -/\n")
-	fmt.Fprintf(&b, "def allocateDuringFilterShape : Bool := %s\n\n", fg.LeanBool(adfOK))
-
-	// ------------------------------------------------------------------ ipam.go: getAvailableSubnet
-	ip, err := fg.ParseFile(repo, plugDir+"ipam.go")
-	if err != nil {
-		return nil, err
-	}
-	ga, err := ip.Fn("FloatingIPPlugin", "getAvailableSubnet")
-	if err != nil {
-		return nil, err
-	}
-	var countedPrefix, ruleCond, cmpOp, cmpText string
-	ruleBodyCounts, elseOwnOnly, notPrefixGuard := false, false, false
-	prefixDef := ""
-	ast.Inspect(ga.Body, func(n ast.Node) bool {
-		switch x := n.(type) {
-		case *ast.AssignStmt:
-			if len(x.Lhs) == 1 && len(x.Rhs) == 1 && ip.Src(x.Lhs[0]) == "poolPrefix" {
-				prefixDef = ip.Src(x.Rhs[0])
-			}
-		case *ast.CallExpr:
-			if ip.Src(x.Fun) == "p.ipam.ByPrefix" && len(x.Args) == 1 {
-				countedPrefix = ip.Src(x.Args[0])
-			}
-		case *ast.RangeStmt:
-			if ip.Src(x.X) != "ips" {
-				return true
-			}
-			for _, s := range x.Body.List {
-				outer, ok := s.(*ast.IfStmt)
-				if !ok || ip.Src(outer.Cond) != "ip.Key != poolPrefix" {
-					continue
-				}
-				notPrefixGuard = true
-				if len(outer.Body.List) != 1 {
-					continue
-				}
-				inner, ok := outer.Body.List[0].(*ast.IfStmt)
-				if !ok {
-					continue
-				}
-				ruleCond = ip.Src(inner.Cond)
-				ruleBodyCounts = len(inner.Body.List) == 1 && ip.Src(inner.Body.List[0]) == "usedCount++"
-				if eb, ok := inner.Else.(*ast.BlockStmt); ok {
-					elseOwnOnly = strings.Contains(ip.Src(eb), "strings.HasPrefix(ip.Key, poolAppPrefix)")
-				}
-			}
-		case *ast.IfStmt:
-			if be, ok := x.Cond.(*ast.BinaryExpr); ok && ip.Src(be.X) == "usedCount" && ip.Src(be.Y) == "replicas" {
-				cmpOp, cmpText = be.Op.String(), ip.Src(be)
-				// the branch must refuse (return an error)
-				refuses := false
-				for _, s := range x.Body.List {
-					ast.Inspect(s, func(m ast.Node) bool {
-						if r, ok := m.(*ast.ReturnStmt); ok && strings.Contains(ip.Src(r), "fmt.Errorf") {
-							refuses = true
-						}
-						return true
-					})
-				}
-				if !refuses {
-					cmpOp = "no-refusal"
-				}
-			}
-		}
-		return true
-	})
-	if countedPrefix == "" || cmpOp == "" || !notPrefixGuard {
-		return nil, fmt.Errorf("ipam.go: getAvailableSubnet: ByPrefix call / `ip.Key != poolPrefix` guard / usedCount comparison not found")
-	}
+	fmt.Fprintf(&b, "def allocateDuringFilterShape : Bool := %s\n\n", fg.LeanBool(ff.adfShape))
 	b.WriteString("/-- getAvailableSubnet counts the records of `ByPrefix(keyObj.PoolPrefix())` - the locked string (same keyObj) -/\n")
-	fmt.Fprintf(&b, "def filterCountsLockedPrefix : Bool := %s\n", fg.LeanBool(countedPrefix == "poolPrefix" &&
-		prefixDef == "keyObj.PoolPrefix()" && countCall == "keyObj" && filterKeyExpr == "keyObj.PoolPrefix()"))
-	b.WriteString("/-- the counting rule: a record whose key is not the bare prefix counts as used when ... -/\n")
-	fmt.Fprintf(&b, "def usedRuleText : String := %s\n", fg.LeanStr(ruleCond))
-	fmt.Fprintf(&b, "def countsAllWhenSized : Bool := %s\n", fg.LeanBool(ruleBodyCounts && elseOwnOnly &&
-		ruleCond == `isPoolSizeDefined || keyObj.PoolName == ""`))
+	fmt.Fprintf(&b, "def filterCountsLockedPrefix : Bool := %s\n", fg.LeanBool(ff.countsLockedPrefix))
+	b.WriteString("/-- the counting rule: a record of the prefix counts as used when ... -/\n")
+	fmt.Fprintf(&b, "def usedRuleText : String := %s\n", fg.LeanStr(ff.ruleText))
+	fmt.Fprintf(&b, "def countsAllWhenSized : Bool := %s\n", fg.LeanBool(ff.countsAll))
 	b.WriteString("/-- the refusal: `if usedCount >= replicas { return .. error }` -/\n")
-	fmt.Fprintf(&b, "def usedCmpText : String := %s\n", fg.LeanStr(cmpText))
-	fmt.Fprintf(&b, "def refusesWhenUsedGeSize : Bool := %s\n\n", fg.LeanBool(cmpOp == ">="))
-
-	// ------------------------------------------------------------------ deployment.go: getDpReplicas, LockDpPool
-	dp, err := fg.ParseFile(repo, plugDir+"deployment.go")
-	if err != nil {
-		return nil, err
-	}
-	gr, err := dp.Fn("FloatingIPPlugin", "getDpReplicas")
-	if err != nil {
-		return nil, err
-	}
-	srcGr := dp.Src(gr.Body)
-	sizeFromPool := strings.Contains(srcGr, `p.PoolLister.Pools("kube-system").Get(keyObj.PoolName)`) &&
-		strings.Contains(srcGr, "return pool.Size, true, nil") && strings.Contains(srcGr, `keyObj.PoolName != ""`)
+	fmt.Fprintf(&b, "def usedCmpText : String := %s\n", fg.LeanStr(ff.cmpText))
+	fmt.Fprintf(&b, "def refusesWhenUsedGeSize : Bool := %s\n\n", fg.LeanBool(ff.cmpOp == ">="))
 	b.WriteString("/-- getDpReplicas: a Pool object found in the lister answers (pool.Size, isPoolSizeDefined = true) -/\n")
-	fmt.Fprintf(&b, "def sizeFromPoolObject : Bool := %s\n", fg.LeanBool(sizeFromPool))
-	ld, err := dp.Fn("FloatingIPPlugin", "LockDpPool")
-	if err != nil {
-		return nil, err
-	}
-	srcLd := dp.Src(ld.Body)
-	lprm := ""
-	if len(ld.Type.Params.List) == 1 && len(ld.Type.Params.List[0].Names) == 1 {
-		lprm = ld.Type.Params.List[0].Names[0].Name
-	}
-	keyed := lprm != "" && strings.Contains(srcLd, "p.dpLockPool.LockKey("+lprm+")") &&
-		strings.Contains(srcLd, "p.dpLockPool.UnlockKey("+lprm+")")
+	fmt.Fprintf(&b, "def sizeFromPoolObject : Bool := %s\n", fg.LeanBool(ff.sizeFromPool))
 	b.WriteString("/-- LockDpPool(x) locks the keyed mutex on exactly the string x and returns its unlock -/\n")
-	fmt.Fprintf(&b, "def lockDpPoolIsKeyedMutex : Bool := %s\n\n", fg.LeanBool(keyed))
+	fmt.Fprintf(&b, "def lockDpPoolIsKeyedMutex : Bool := %s\n\n", fg.LeanBool(ff.keyedMutex))
 
-	// ------------------------------------------------------------------ api/pool.go: preAllocateIP
-	pl, err := fg.ParseFile(repo, poolGo)
+	api, err := loadPkg(repo, filepath.Dir(poolGo))
 	if err != nil {
 		return nil, err
 	}
-	pa, err := pl.Fn("PoolController", "preAllocateIP")
+	pf, err := analysePre(api)
 	if err != nil {
 		return nil, err
 	}
-	jLock := idxOf(pl, pa.Body, func(s ast.Stmt) bool {
-		_, isDefer := s.(*ast.DeferStmt)
-		return isDefer && deferredLock(pl, s, "LockPoolFunc") != nil
-	})
-	jCount := pl.StmtIndex(pa.Body, "c.IPAM.ByPrefix(")
-	jLoop := idxOf(pl, pa.Body, func(s ast.Stmt) bool {
-		_, isFor := s.(*ast.ForStmt)
-		return isFor && strings.Contains(pl.Src(s), "c.IPAM.AllocateInSubnet(")
-	})
-	if jCount < 0 || jLoop < 0 {
-		return nil, fmt.Errorf("%s: preAllocateIP no longer has a top-level ByPrefix count and an AllocateInSubnet loop", poolGo)
-	}
-	apiKeyExpr, apiKeyDef := "", ""
-	var apiKeyCall *ast.CallExpr
-	if jLock >= 0 {
-		arg := deferredLock(pl, pa.Body.List[jLock], "LockPoolFunc")
-		apiKeyExpr = pl.Src(arg)
-		if id, ok := arg.(*ast.Ident); ok {
-			// resolve the local variable to its (single) definition
-			for _, s := range pa.Body.List[:jLock] {
-				if as, ok := s.(*ast.AssignStmt); ok && as.Tok == token.DEFINE && len(as.Lhs) == 1 && len(as.Rhs) == 1 &&
-					pl.Src(as.Lhs[0]) == id.Name {
-					apiKeyDef = pl.Src(as.Rhs[0])
-					if c, ok := as.Rhs[0].(*ast.CallExpr); ok {
-						apiKeyCall = c
-					}
-				}
-			}
-		} else if c, ok := arg.(*ast.CallExpr); ok {
-			apiKeyDef, apiKeyCall = apiKeyExpr, c
-		} else {
-			apiKeyDef = apiKeyExpr
-		}
-	}
-	countArg, allocArg := "", ""
-	ast.Inspect(pa.Body, func(n ast.Node) bool {
-		if c, ok := n.(*ast.CallExpr); ok && len(c.Args) > 0 {
-			switch pl.Src(c.Fun) {
-			case "c.IPAM.ByPrefix":
-				countArg = pl.Src(c.Args[0])
-			case "c.IPAM.AllocateInSubnet":
-				allocArg = pl.Src(c.Args[0])
-			}
-		}
-		return true
-	})
-	fmt.Fprintf(&b, "/-- preAllocateIP: `defer c.LockPoolFunc(%s)()` is taken before the count `c.IPAM.ByPrefix(..)` -/\n", apiKeyExpr)
-	fmt.Fprintf(&b, "def preLocksBeforeCount : Bool := %s\n", fg.LeanBool(jLock >= 0 && jLock < jCount))
+	b.WriteString("/-- preAllocateIP: `defer c.LockPoolFunc(poolPrefix)()` is taken before the count `c.IPAM.ByPrefix(..)` -/\n")
+	fmt.Fprintf(&b, "def preLocksBeforeCount : Bool := %s\n", fg.LeanBool(pf.locksBeforeCount))
 	b.WriteString("/-- ... and, being deferred, is held across the whole allocation loop -/\n")
-	fmt.Fprintf(&b, "def preHoldsAcrossLoop : Bool := %s\n", fg.LeanBool(jLock >= 0 && jLock < jLoop))
+	fmt.Fprintf(&b, "def preHoldsAcrossLoop : Bool := %s\n", fg.LeanBool(pf.holdsAcrossLoop))
 	b.WriteString("/-- preAllocateIP counts and allocates under the very string it locks -/\n")
-	fmt.Fprintf(&b, "def preCountsAndAllocatesLockedPrefix : Bool := %s\n", fg.LeanBool(apiKeyExpr != "" && countArg == apiKeyExpr && allocArg == apiKeyExpr))
-	// the API lock key as a function of the pool name
-	name := "pool.Name"
-	trArg := func(e ast.Expr) (string, error) {
-		s := pl.Src(e)
-		switch {
-		case s == name:
-			return "poolName", nil
-		case s == "util.DeploymentPrefixKey":
-			return fg.LeanStr(consts["DeploymentPrefixKey"]), nil
-		case s == "util.StatefulsetPrefixKey":
-			return fg.LeanStr(consts["StatefulsetPrefixKey"]), nil
-		}
-		if bl, ok := e.(*ast.BasicLit); ok && bl.Kind == token.STRING {
-			v, err := strconv.Unquote(bl.Value)
-			if err != nil {
-				return "", err
-			}
-			return fg.LeanStr(v), nil
-		}
-		return "", fmt.Errorf("%s: preAllocateIP: cannot translate lock-key argument %s", poolGo, s)
+	fmt.Fprintf(&b, "def preCountsAndAllocatesLockedPrefix : Bool := %s\n", fg.LeanBool(pf.sameKey))
+	key, err := apiLockKeyLean(pf, keys)
+	if err != nil {
+		return nil, err
 	}
 	b.WriteString("/-- the string preAllocateIP locks, as a function of the pool name of the request -/\n")
-	switch {
-	case apiKeyCall != nil && pl.Src(apiKeyCall.Fun) != "" && strings.HasSuffix(pl.Src(apiKeyCall.Fun), ".PoolPrefix") &&
-		len(apiKeyCall.Args) == 0:
-		sel := apiKeyCall.Fun.(*ast.SelectorExpr)
-		ctor, ok := sel.X.(*ast.CallExpr)
-		if !ok || pl.Src(ctor.Fun) != "util.NewKeyObj" || len(ctor.Args) != 5 {
-			return nil, fmt.Errorf("%s: preAllocateIP: lock key %s is not util.NewKeyObj(5 args).PoolPrefix()", poolGo, apiKeyDef)
-		}
-		val := map[string]string{} // KeyObj field -> Lean expression
-		for i, a := range ctor.Args {
-			v, err := trArg(a)
-			if err != nil {
-				return nil, err
-			}
-			val[fieldOfParam[params[i]]] = v
-		}
-		fmt.Fprintf(&b, "def apiLockKey (poolName : String) : String :=\n  poolPrefixFn (%s) (%s) (%s) (%s)\n",
-			val["PoolName"], val["AppTypePrefix"], val["Namespace"], val["AppName"])
-	case apiKeyDef == name:
-		b.WriteString("def apiLockKey (poolName : String) : String := poolName\n")
-	case apiKeyDef == "":
-		b.WriteString("def apiLockKey (poolName : String) : String := \"<no-lock>\" ++ poolName\n")
-	default:
-		if bin, ok := parseConcat(pl, pa, apiKeyDef, trArg); ok {
-			fmt.Fprintf(&b, "def apiLockKey (poolName : String) : String := %s\n", bin)
-		} else {
-			return nil, fmt.Errorf("%s: preAllocateIP locks %q - an expression this translator cannot turn into a function", poolGo, apiKeyDef)
-		}
+	fmt.Fprintf(&b, "def apiLockKey (poolName : String) : String :=\n  %s\n", key)
+	lockText := ""
+	if pf.lockExpr != nil {
+		lockText = pf.c.p.Src(pf.lockExpr)
 	}
-	fmt.Fprintf(&b, "def apiLockKeyText : String := %s\n\n", fg.LeanStr(apiKeyDef))
+	fmt.Fprintf(&b, "def apiLockKeyText : String := %s\n\n", fg.LeanStr(lockText))
 
-	// ------------------------------------------------------------------ server.go: wiring
 	sv, err := fg.ParseFile(repo, srvGo)
 	if err != nil {
 		return nil, err
 	}
-	wiredLock, wiredIPAM := "", ""
-	ast.Inspect(sv.File, func(n ast.Node) bool {
-		cl, ok := n.(*ast.CompositeLit)
-		if !ok || sv.Src(cl.Type) != "api.PoolController" {
-			return true
-		}
-		for _, el := range cl.Elts {
-			if kv, ok := el.(*ast.KeyValueExpr); ok {
-				switch sv.Src(kv.Key) {
-				case "LockPoolFunc":
-					wiredLock = sv.Src(kv.Value)
-				case "IPAM":
-					wiredIPAM = sv.Src(kv.Value)
-				}
-			}
-		}
-		return true
-	})
-	if wiredLock == "" {
-		return nil, fmt.Errorf("%s: api.PoolController literal with LockPoolFunc not found", srvGo)
+	wiredLock, wiredIPAM, wiredText, err := analyseServer(sv)
+	if err != nil {
+		return nil, err
 	}
 	b.WriteString("/-- the server gives the pool controller the plugin's own keyed pool lock and the plugin's own IPAM -/\n")
-	fmt.Fprintf(&b, "def lockWiredText : String := %s\n", fg.LeanStr(wiredLock))
-	fmt.Fprintf(&b, "def lockWired : Bool := %s\n", fg.LeanBool(wiredLock == "s.plugin.LockDpPool"))
-	fmt.Fprintf(&b, "def ipamShared : Bool := %s\n", fg.LeanBool(wiredIPAM == "s.plugin.GetIpam()"))
+	fmt.Fprintf(&b, "def lockWiredText : String := %s\n", fg.LeanStr(wiredText))
+	fmt.Fprintf(&b, "def lockWired : Bool := %s\n", fg.LeanBool(wiredLock == "recv.plugin.LockDpPool"))
+	fmt.Fprintf(&b, "def ipamShared : Bool := %s\n", fg.LeanBool(wiredIPAM == "recv.plugin.GetIpam()"))
 
 	b.WriteString("\nend Galaxy.Generated.C07\n")
 	return map[string]string{"C07.lean": b.String()}, nil
-}
-
-// parseConcat translates a lock key written as a string concatenation / Sprintf of literals and pool.Name.
-func parseConcat(p *fg.Parsed, fn *ast.FuncDecl, def string, tr func(ast.Expr) (string, error)) (string, bool) {
-	var out string
-	ok := false
-	ast.Inspect(fn.Body, func(n ast.Node) bool {
-		as, isAs := n.(*ast.AssignStmt)
-		if !isAs || len(as.Rhs) != 1 || p.Src(as.Rhs[0]) != def {
-			return true
-		}
-		var walk func(e ast.Expr) (string, bool)
-		walk = func(e ast.Expr) (string, bool) {
-			if be, isBin := e.(*ast.BinaryExpr); isBin && be.Op == token.ADD {
-				l, ok1 := walk(be.X)
-				r, ok2 := walk(be.Y)
-				return l + " ++ " + r, ok1 && ok2
-			}
-			if c, isCall := e.(*ast.CallExpr); isCall && p.Src(c.Fun) == "fmt.Sprintf" {
-				s, err := sprintfLean(p, c, tr)
-				return s, err == nil
-			}
-			s, err := tr(e)
-			return s, err == nil
-		}
-		out, ok = walk(as.Rhs[0])
-		return false
-	})
-	return out, ok
 }
 
 func main() { fg.Run("c07", gen) }
